@@ -19,8 +19,9 @@ META = {
                  'by TLC (trace validation)',
     'level_text': 'TLC enumerates every start situation (21 state classes of the target stream next to a busy neighbour '
                   'stream, cursor present/absent, caller member of the group or not) x policy (empty, full, full minus one '
-                  'entry, single entry, other clients only) x call (17 methods with their request shapes: resume-on-subscribe, '
-                  'group take-over with epochs, readonly on/off) followed by toggling the call\'s policy entry in the file, '
+                  'entry, single entry, other clients only; resources = stream names, subjects, "*", the consumer group id and '
+                  'the consumer ids) x call (16 methods with their request shapes: resume-on-subscribe, group take-over '
+                  'with epochs, readonly on/off, consumer-group calls by a member / non-member) followed by toggling the call\'s policy entry in the file, '
                   'reload, and the same call again, and checks on the transcribed handlers that an unauthorised call is '
                   'refused and leaves the world unchanged.  A stratified sample of these behaviours is executed on the real '
                   'server and every recorded step is judged by TLC; the method set is taken from client.APIServer by '
@@ -74,7 +75,9 @@ def authorised(policy, call):
 
 CLIENTS = ['alice', 'bob']
 ACTIONS = sorted({action_of(m) for m in MODEL_METHODS})
-ALL_ENTRIES = sorted([c, r, a] for c in CLIENTS for r in ('s1', 's2', SYS, 'j1', 'j2', '*', 'g1') for a in ACTIONS)
+# Authz!Resources: streams, subjects, '*', the group id and the consumer ids (names that travel next to the resource)
+ALL_ENTRIES = sorted([c, r, a] for c in CLIENTS for r in ('s1', 's2', SYS, 'j1', 'j2', '*', 'g1') + tuple(CLIENTS)
+                     for a in ACTIONS)
 
 
 def sharpen(b, rng):
@@ -85,10 +88,7 @@ def sharpen(b, rng):
     pol = b['cfg']['policy']
     entry = [c['c'], resource_of(c), action_of(c['m'])]
     if unauthorised(pol, c):
-        if c['m'] in GROUP_METHODS:
-            new = [e for e in ALL_ENTRIES if not (e[0] == c['c'] and e[2] == c['m'])]
-        else:
-            new = [e for e in ALL_ENTRIES if e != entry]
+        new = [e for e in ALL_ENTRIES if e != entry]
     else:
         new = [entry] + ([[c['c'], '__cursors', 'Publish']] if c['m'] == 'SetCursor' else [])
     if rng.random() < 0.2:
@@ -140,6 +140,8 @@ def visible_variant(b):
     if c['s'] == SYS:
         return None
     cls = {'exists': True, 'paused': False, 'readonly': False, 'len': 1, 'plain': 1, 'gsub': dict(OWNER)}
+    if c['m'] == 'CreateStream' and c['s'] == 's2':
+        c['s'] = 's1'     # the neighbour s2 is the stream the group's members consume: it exists in every start situation
     if c['m'] == 'CreateStream':
         cls = {'exists': False, 'paused': False, 'readonly': False, 'len': 0, 'plain': 0, 'gsub': dict(NOSUB)}
     elif c['m'] == 'Subscribe' and c['resume']:
@@ -197,9 +199,7 @@ def to_behaviour(bid, sim):
 
 
 def unauthorised(policy, call):
-    """the property's reading (Unauthorised in Authz.tla): for group methods no entry with that action at all"""
-    if call['m'] in GROUP_METHODS:
-        return not any(e[0] == call['c'] and e[2] == call['m'] for e in policy)
+    """the property's reading (Unauthorised in Authz.tla) for a caller with a verified identity"""
     return not authorised(policy, call)
 
 
@@ -224,21 +224,48 @@ def features(b, step_index):
     return f
 
 
-def execute(d, behaviours, test='^TestVerifC15$', env=None):
-    stim = os.path.join(d, 'stim.json')
-    trace = os.path.join(d, 'trace-all.ndjson')
-    core.write_json(stim, {'behaviours': behaviours})
-    rc, out, wall = core.go_test('server', test, dict({'VERIF_STIMULI': stim, 'VERIF_TRACE_OUT': trace}, **(env or {})),
-                                 timeout=1700, subs=['c15'])
-    if rc != 0 or not os.path.exists(trace):
-        raise core.Inconclusive('harness failed rc=%s: %s' % (rc, out[-3000:]))
-    lines = core.read_ndjson(trace)
-    methods = lines[0]['methods']
+def execute(d, behaviours, test='^TestVerifC15$', env=None, shards=1):
+    """runs the behaviours on the real server; `shards` > 1: that many test processes (each its own one-node server)
+    side by side, every behaviour is independent of the others (fresh names), the traces are concatenated"""
+    import threading
+    import time
+    shards = max(1, min(shards, len(behaviours)))
+    parts = [behaviours[k::shards] for k in range(shards)]
+    results = [None] * shards
+
+    def one(k):
+        stim = os.path.join(d, 'stim-%d.json' % k)
+        trace = os.path.join(d, 'trace-all-%d.ndjson' % k)
+        if os.path.exists(trace):
+            os.remove(trace)
+        core.write_json(stim, {'behaviours': parts[k]})
+        try:
+            rc, out, wall = core.go_test('server', test, dict({'VERIF_STIMULI': stim, 'VERIF_TRACE_OUT': trace}, **(env or {})),
+                                         timeout=1700, subs=['c15'])
+        except Exception as exc:          # reported by the caller's thread
+            results[k] = ('exc', repr(exc), None)
+            return
+        results[k] = (rc, out, trace)
+    threads = []
+    for k in range(shards):
+        th = threading.Thread(target=one, args=(k,))
+        th.start()
+        threads.append(th)
+        time.sleep(0.3)      # (core.scratch numbers its directories with a plain counter)
+    for th in threads:
+        th.join()
+    lines, methods = [], None
+    for rc, out, trace in results:
+        if rc != 0 or not trace or not os.path.exists(trace):
+            raise core.Inconclusive('harness failed rc=%s: %s' % (rc, (out or '')[-3000:]))
+        part = core.read_ndjson(trace)
+        methods = part[0]['methods']
+        lines += part[1:]
     out_path = os.path.join(d, 'trace.ndjson')
     with open(out_path, 'w') as fh:
-        for e in lines[1:]:
+        for e in lines:
             fh.write(json.dumps(e) + '\n')
-    return out_path, methods, lines[1:]
+    return out_path, methods, lines
 
 
 def judge(rep, trace, lines, behaviours, stats):
@@ -291,8 +318,24 @@ def run(rep, tier, seed, replay):
     import time
     t0 = time.time()
     phases = {}
-    res = core.tlc_check('MC_Authz.tla', 'MC_Authz.cfg' if tier == 'quick' else 'MC_Authz_thorough.cfg', timeout=2400,
-                         coverage=(tier == 'thorough'))
+    # stimulus generation (one TLC worker) runs next to the design check
+    import threading
+    nsim = 2500 if tier == 'quick' else 12000
+    simbox = {}
+
+    def simulate():
+        try:
+            simbox['sims'] = core.tlc_simulate('MC_Authz.tla', 'Sim_Authz.cfg', nsim, 5, seed, timeout=1200)
+        except BaseException as exc:
+            simbox['exc'] = exc
+    simth = threading.Thread(target=simulate)
+    simth.start()
+    time.sleep(0.3)
+    try:
+        res = core.tlc_check('MC_Authz.tla', 'MC_Authz.cfg' if tier == 'quick' else 'MC_Authz_thorough.cfg', timeout=2400,
+                             coverage=(tier == 'thorough'), workers=max(2, core.NCPU - 2))
+    finally:
+        simth.join()
     if res.get('zero_cov'):
         # TLC prints interim coverage dumps during long runs; only the final one counts
         import re
@@ -304,8 +347,9 @@ def run(rep, tier, seed, replay):
     stats['design_violated'] = res['violated']
     phases['design'] = round(time.time() - t0, 1)
     # behaviours from the specification (both clients call), stratified
-    nsim = 2500 if tier == 'quick' else 12000
-    sims = core.tlc_simulate('MC_Authz.tla', 'Sim_Authz.cfg', nsim, 5, seed, timeout=1200)
+    if 'exc' in simbox:
+        raise simbox['exc']
+    sims = simbox['sims']
     cands = [to_behaviour(n + 1, s) for n, s in enumerate(sims) if len(s) > 1]
     # the in-process driver stands for callers with a verified certificate on a server that verifies them and has an
     # enforcer; the other credentials / configuration routes are driven over real TLS (stages below)
@@ -357,7 +401,7 @@ def run(rep, tier, seed, replay):
     for n, b in enumerate(chosen):
         b['id'] = n + 1
     with core.scratch('c15') as d:
-        trace, methods, lines = execute(d, chosen)
+        trace, methods, lines = execute(d, chosen, shards=2 if tier == 'quick' else 3)
         phases['execute'] = round(time.time() - t0, 1)
         unknown = [m for m in methods if m not in MODEL_METHODS]
         missing = [m for m in MODEL_METHODS if m not in methods]
@@ -375,7 +419,7 @@ def run(rep, tier, seed, replay):
         # the same behaviours over a real gRPC/TLS connection: the client id comes from the certificate through the
         # interceptors of server/authz.go and the enforcer is the one the server builds from its configuration
         import copy
-        tls_ok = set(MODEL_METHODS) - GROUP_METHODS - {'PublishAsync'}
+        tls_ok = set(MODEL_METHODS) - {'PublishAsync'}
         tls_b = [copy.deepcopy(b) for b in chosen
                  if all(s['a'] != 'Call' or (s['call']['c'] == 'alice' and s['call']['m'] in tls_ok) for s in b['steps'])]
         tls_b.sort(key=lambda b: not unauthorised(b['cfg']['policy'], b['steps'][0]['call']))
